@@ -118,6 +118,8 @@ class ToSympy:
             return sp.sin(c(a[0]))
         if op == "floordiv":
             return sp.floor(c(a[0]) / c(a[1]))
+        if op == "py_float":
+            return c(a[0])  # float(n) of a count: the same number
         if op == "log1p":
             return sp.log(1 + c(a[0]))
         if op == "expm1":
